@@ -4,20 +4,22 @@ Pure text-level: produces S-expression terms (see state_common), never touches h
 from __future__ import annotations
 
 from harness.state_common import (
-    BASE_NAMES, BASE_SPECS, C_BOX, C_BOX_ANY, C_BOX_INNER, C_BOX_INT, C_BOX_STR, C_BYTES, C_BOOL, C_COL,
+    BASE_NAMES, BASE_SPECS, C_BOX, C_BOX_ANY, C_BOX_COL, C_BOX_COL2, C_BOX_INNER, C_BOX_INNER2, C_BOX_INT, C_BOX_STR, C_BYTES,
+    C_BOOL, C_COL, C_COL2, C_INNER2,
     C_DATE, C_DATETIME, C_FLOAT, C_HASLEN, C_ICOL, C_INNER, C_INT, C_NAMED, C_NODE, C_OBJ1, C_OBJ2, C_PAIR,
     C_PAIR_INT_STR, C_PATH, C_POSIXPATH, C_SCOL, C_STR, C_SUB, C_TIME, C_TIMEDELTA, C_TIMEZONE, C_UUID,
     ENUM_MEMBERS, show,
 )
 
 HASHABLE_LEAVES = [C_BOOL, C_INT, C_FLOAT, C_STR, C_BYTES, C_UUID, C_DATE, C_DATETIME, C_TIME, C_TIMEDELTA,
-                   C_TIMEZONE, C_PATH, C_COL, C_SCOL, C_ICOL, C_NAMED]
-STATE_LEAVES = [C_INNER, C_SUB, C_NODE, C_BOX, C_BOX_INT, C_BOX_STR, C_PAIR, C_PAIR_INT_STR]
+                   C_TIMEZONE, C_PATH, C_COL, C_SCOL, C_ICOL, C_NAMED, C_COL2]
+STATE_LEAVES = [C_INNER, C_SUB, C_NODE, C_BOX, C_BOX_INT, C_BOX_STR, C_PAIR, C_PAIR_INT_STR, C_INNER2, C_BOX_COL, C_BOX_COL2,
+                C_BOX_INNER2]
 OTHER_LEAVES = [C_HASLEN]
 LIT_POOL = ["N", "b0", "b1", "i0", "i1", "i2", "i-1", 's"a"', 's"b"', 's"ab"', 'y"a"',
             ["E", str(C_COL), "0", "-"], ["E", str(C_COL), "1", "-"], ["E", str(C_SCOL), "0", 's"a"'],
             ["E", str(C_ICOL), "0", "i1"]]
-SPEC_ARGS = {C_INT: C_BOX_INT, C_STR: C_BOX_STR, C_INNER: C_BOX_INNER}
+SPEC_ARGS = {C_INT: C_BOX_INT, C_STR: C_BOX_STR, C_INNER: C_BOX_INNER, C_COL: C_BOX_COL, C_COL2: C_BOX_COL2, C_INNER2: C_BOX_INNER2}
 
 
 def cls(c: int):
@@ -189,7 +191,7 @@ class Gen:
             return ["O", str(r.choice([C_DATE, C_DATETIME])), str(r.randint(0, 9))]
         if c in (C_PATH, C_POSIXPATH):
             return ["O", str(C_POSIXPATH), str(r.randint(0, 9))]
-        if c in (C_COL, C_SCOL, C_ICOL):
+        if c in (C_COL, C_SCOL, C_ICOL, C_COL2):
             i = r.randrange(len(ENUM_MEMBERS[c]))
             return ["E", str(c), str(i), ENUM_MEMBERS[c][i]]
         if c == C_NAMED:
@@ -206,7 +208,7 @@ class Gen:
             nxt = self.inst_of(C_NODE, False, depth + 1) if depth < 2 and r.random() < 0.4 else "N"
             return ["I", str(C_NODE), str(self.oid()), ["val", r.choice(["i1", "i2"])], ["next", nxt]]
         if c == C_BOX:
-            k = r.choice([C_BOX, C_BOX_INT, C_BOX_STR])
+            k = r.choice([C_BOX, C_BOX_INT, C_BOX_STR, C_BOX_COL, C_BOX_COL2, C_BOX_INNER2])
             return self.inst_of(k, False, depth) if k != C_BOX else ["I", str(C_BOX), str(self.oid()), ["v", r.choice(["i1", 's"a"', "N"])]]
         if c in (C_BOX_INT, C_BOX_ANY):
             return ["I", str(c), str(self.oid()), ["v", r.choice(["i1", "i5"])]]
@@ -214,6 +216,12 @@ class Gen:
             return ["I", str(c), str(self.oid()), ["v", 's"a"']]
         if c == C_BOX_INNER:
             return ["I", str(c), str(self.oid()), ["v", self.inst_of(C_INNER, False, depth + 1)]]
+        if c == C_INNER2:
+            return ["I", str(c), str(self.oid()), ["q", r.choice(['s""', 's"b"'])]]
+        if c in (C_BOX_COL, C_BOX_COL2):
+            return ["I", str(c), str(self.oid()), ["v", self.inst_of(C_COL if c == C_BOX_COL else C_COL2, True, depth + 1)]]
+        if c == C_BOX_INNER2:
+            return ["I", str(c), str(self.oid()), ["v", self.inst_of(C_INNER2, False, depth + 1)]]
         if c == C_PAIR:
             if r.random() < 0.5:
                 return self.inst_of(C_PAIR_INT_STR, False, depth)
